@@ -2,10 +2,15 @@ use crate::{
     stat::{BucketWrap, LeapArray, MetricTrait},
     Result,
 };
+#[cfg(not(sentinel_verif))]
 use std::sync::{
     atomic::{AtomicU64, Ordering},
     Arc,
 };
+#[cfg(sentinel_verif)]
+use crate::verif_sync::AtomicU64;
+#[cfg(sentinel_verif)]
+use std::sync::{atomic::Ordering, Arc};
 
 #[derive(Debug, Default)]
 pub struct Counter {
